@@ -57,10 +57,14 @@ class Snapshot:
     def digest(self) -> str:
         if self._digest is None:
             h = hashlib.sha256()
-            for name in ("nodes", "deps", "steps", "step_hash", "dyn", "env", "nglob", "res"):
+            for name in ("nodes", "deps", "steps", "dyn", "env", "nglob", "res"):
                 h.update(name.encode())
                 h.update(repr(sorted(getattr(self, name).items())).encode())
             # mtime and inode of stored file hashes are not part of the state
+            # (explained step hashes embed file hashes as well)
+            h.update(
+                repr(sorted((i, _step_digests(hj)) for i, hj in self.step_hash.items())).encode()
+            )
             h.update(
                 repr(sorted((i, st, _hash_core(hj)) for i, (st, hj) in self.files.items())).encode()
             )
